@@ -565,7 +565,7 @@ _SHARED = {
     "C06": [("X1", "c18", "r8"), ("X2", "c05", "r5")],
     "C07": [("X1", "c06", "r5"), ("X2", "c18", "r2"), ("X3", "c18", "r1"), ("X4", "c18", "r8"), ("X5", "c18", "r3")],
     "C08": [("X1", "c02", "r6")],
-    "C09": [("X1", "c13", "r3"), ("X2", "c08", "r1")],
+    "C09": [("X1", "c13", "r3")],
     "C10": [("X1", "c03", "r6"), ("X2", "c03", "r1"), ("X3", "c09", "r2"), ("X4", "c18", "r8")],
     "C11": [("X1", "c08", "r3"), ("X2", "c08", "r4"), ("X3", "c09", "r3"), ("X4", "c02", "r7"), ("X5", "c09", "r1")],
     "C13": [("X1", "c18", "r4"), ("X2", "c18", "r8"), ("X3", "c04", "r4")],
